@@ -33,8 +33,10 @@ class HarnessError(Exception):
     """Something went wrong in the machinery itself (exit 2, never a violation)."""
 
 
-class ImplTimeout(Exception):
-    """the code under test did not return within the time limit (reported like an exception it raised: "always terminates")"""
+class ImplTimeout(BaseException):
+    """the code under test did not return within the time limit (reported like an exception it raised: "always terminates").
+    A BaseException, and the timer keeps firing once a second: the package's own `except Exception` handlers (failure containment)
+    must not be able to swallow the time limit."""
 
 
 _timeouts_seen = [0]
@@ -62,7 +64,7 @@ class time_limit:
             raise ImplTimeout('not tried: six earlier calls in this process did not return')
         if self.active:
             self.old = signal.signal(signal.SIGALRM, self._fire)
-            signal.setitimer(signal.ITIMER_REAL, self.seconds)
+            signal.setitimer(signal.ITIMER_REAL, self.seconds, 1.0)
         return self
 
     def __exit__(self, *exc):
